@@ -46,6 +46,18 @@ class GetterProfile(StoreProfile):
         q = run.scratch.setdefault("queue", [])
         if q:
             return q.pop(0)
+        if i - len(uni) == run.params["n_ops"] - 3 and rng.random() < 0.35:
+            # the last steps of the run: one sidecar replaced by bytes that are not JSON text at all (another tool, another
+            # encoding), then searches over it -- its record is just the Sid, the others are untouched
+            have = [e for e in run.store.listing(cfg) if run.store.data(cfg, e) and not run.store.shares_key(cfg, e)]
+            if have:
+                e = rng.choice(have)
+                kind = rng.choice(["latin1", "utf16_bom", "binary", "nul"])
+                segs = e.split("/")
+                q.append({"op": "get", "party": rng.choice(["GP:" + cfg, "GA"]), "s": "/".join(segs[:-1] + ["*"]), "attributes": None,
+                          "enc": "enc_str", "held": False})
+                q.append({"op": "get", "party": "GP:" + cfg, "s": e, "attributes": ["comment", "sid"], "enc": "enc_uri", "held": False})
+                return {"op": "garbage_sidecar", "cfg": cfg, "sid": e, "kind": kind}
         r = rng.random()
         if r < 0.05:
             return {"op": "restart"}
@@ -144,6 +156,21 @@ class GetterProfile(StoreProfile):
 
     def apply(self, run, step):
         if self.apply_common(run, step):
+            return
+        if step["op"] == "garbage_sidecar":
+            from .crash import GARBAGE
+            import os
+            st = run.store
+            cfg, e = step["cfg"], step["sid"]
+            if not st.exists(cfg, e) or st.shares_key(cfg, e):
+                return
+            p = run.world.real(run.m.sidecar_path(st.paths[cfg][e]))
+            if os.path.isfile(p):
+                with open(p, "wb") as f:
+                    f.write(GARBAGE[step["kind"]])
+                st.attrs[cfg][st.key_of(cfg, e)] = {}       # unreadable: reads return just the 'sid' entry
+                st.own[cfg][e] = {}
+                run.fired["sidecar_garbage:" + step["kind"]] += 1
             return
         if step["op"] != "get":
             raise ValueError(step["op"])
